@@ -47,7 +47,9 @@ THEOREMS = [
     "Verif.C17.build_wf",
     "Verif.C17.build_used_iff",
     "Verif.C17.build_perm_invariant",
+    "Verif.C17.build_mono",
     "Verif.C17.build_add_use_monotone",
+    "Verif.C17.build_add_use_target_used",
     "Verif.C17.reported_iff",
     "Verif.C17.reported_only_if_unused_everywhere",
     "Verif.C17.merge_order_independent",
